@@ -105,9 +105,9 @@ PROPS = {
         assumptions=BLOCK_ASSUME + ['Cosmos-lane signature verification is the SDK decorator (trusted); only its sequence effect is modelled; that an eth_secp256k1 signature binds sequence, account number and chain id in both sign modes is observed on the real VerifySignature (E-crypto) and is C19 for the rest'],
     ),
     'C13': dict(
-        lean_modules=['Model.Block', 'Model.Bloom', 'Properties.C05', 'Properties.C06', 'Model.CreateAddr', 'Properties.C13', 'Properties.C13Bloom', 'Properties.C13Create', 'Facts.Block'],
+        lean_modules=['Model.Block', 'Model.Bloom', 'Properties.C05', 'Properties.C06', 'Model.CreateAddr', 'Properties.C13', 'Properties.C13Bloom', 'Properties.C13Create', 'Facts.Block', 'Facts.TieReceipt', 'Facts.TieMeta'],
         facts=['*'],
-        theorems=['C13_txIndex', 'C13_receipt_index', 'C13_logIndex', 'C13_cumulativeGas', 'C13_status', 'C13_contract',
+        theorems=['loop_spec', 'tie_tx_count', 'tie_cumulative_log_count', 'fact_translated_all', 'C13_txIndex', 'C13_receipt_index', 'C13_logIndex', 'C13_cumulativeGas', 'C13_status', 'C13_contract',
                   'C13_inv_block', 'C13_endBlock_total', 'inv_step', 'fact_log_index_restored',
                   'C13_bloom_exact', 'C13_bloom_covers', 'C13_bloom_union', 'C13_block_bloom_is_union', 'C13_block_bloom_bits', 'C13_block_bloom_order', 'C13_bloom_fits', 'testBit_logsBloom', 'C13_create_roundtrip', 'C13_create_preimage_injective', 'C13_create_address_injective', 'C17_registry_preimages_distinct', 'decodeNat_rlpNat', 'ofBE_beBytes'],
         engines=[dict(name='block', test='TestEngineBlock', quick=500, thorough=6000, thorough_seeds=3)],
